@@ -82,6 +82,36 @@ COMMON_TB = [
 ]
 
 PROPS = {
+    "C02": {
+        "harness": "c02", "driver": "c02",
+        "lean_modules": ["BleveModel.Props.C02"],
+        "rule": ("in-memory scorch and upsidedown indexes of 4-14 documents over an 8-word vocabulary (two multi-valued text fields with "
+                 "term vectors, numeric, boolean and date fields; several batches, updates and deletes), random query trees to depth 3 "
+                 "over the whole family (term, match and/or, phrase, match-phrase, prefix, wildcard, regexp, fuzzy, term/numeric/date "
+                 "range, bool field, doc id, match all/none; conjunction, disjunction with min incl. >10 clauses, boolean "
+                 "must/should/must-not/filter), each run with score default / score none / locations+explain; hit-id set and Total "
+                 "compared with the Lean evaluation of the query's documented meaning over the analysed field values. "
+                 "non-trivial = non-empty and non-total answer; distinct by (corpus, query)"),
+        "trusted_base": COMMON_TB + ["the 'simple' analyzer splits the generated lower-case ASCII text at spaces",
+                                     "harness-side oracles for wildcard (glob->regexp), regexp (Go regexp, anchored) and fuzzy (OSA distance with prefix) acceptance over the vocabulary",
+                                     "zapx/vellum/roaring postings and dictionaries"],
+        "assumptions": ["boost 0 and BooleanQuery.Must set to a non-conjunction through the Go API are excluded points", LEVEL_NOTE],
+        "floors": {"search/scorch/plain": 100, "search/upsidedown/plain": 100, "search/scorch/noscore": 40},
+        "thorough_shards": 16,
+    },
+    "C08": {
+        "harness": "c08", "driver": "c02",
+        "lean_modules": ["BleveModel.Props.C08"],
+        "rule": ("the same index and query generator as C02; for each query the searcher built by Query.Searcher over an index reader "
+                 "(options: default, score none, term vectors+explain) is driven by a random program of 1-12 Next / forward Advance "
+                 "calls (targets at the next id, in gaps left by deleted documents, far ahead, past the last id; Advance as first "
+                 "call) and every returned internal id is compared with the contract evaluated in Lean on the ascending list of "
+                 "matching internal ids. non-trivial = programs with at least two answered calls"),
+        "trusted_base": COMMON_TB + ["zapx postings iterators"],
+        "assumptions": ["backward or repeated Advance targets and calls after exhaustion are outside the contract", LEVEL_NOTE],
+        "floors": {"prog/scorch": 80, "prog/upsidedown": 80},
+        "thorough_shards": 16,
+    },
     "C09": {
         "harness": "c09", "driver": "c09",
         "lean_modules": ["BleveModel.Props.C09"],
